@@ -55,6 +55,7 @@ class GuardAnalysis:
         self.m = model
         self._memo = {}
         self._busy = set()
+        self._ret_state = {}
 
     # ------------------------------------------------------------------ atoms
     def sub(self, a, c):
@@ -158,6 +159,7 @@ class _FnRun:
         self.st_in = st_in
         self.chain = chain
         self.uses = {}
+        self._ret_state = "unset"
         self.selfname = fn.params[0] if (fn.is_method and fn.params and not fn.is_staticmethod) else None
 
     def use(self, node, need, st):
@@ -420,10 +422,15 @@ class _FnRun:
             if not got:
                 continue
             node = cfg.ast[n]
+            # state of the *returned value* when it is the tracked variable or a constructed object
+            rv = self._value_state(node.value, st) if node.value is not None else None
+            if node.value is not None:
+                self._ret_state = rv if self._ret_state == "unset" else join(self._ret_state, rv)
             t, f = self.ev(node.value, st) if node.value is not None else (None, st)
             truthy = join(truthy, t) if t is not None else truthy
             falsy = join(falsy, f) if f is not None else falsy
         uses = list(self.uses.values())
+        self.ga._ret_state[(fn.qual, self.var, self.st_in)] = self._ret_state
         return (uses, truthy, falsy)
 
     def _transfer(self, cfg, n, st):
@@ -486,6 +493,14 @@ class _FnRun:
                 return (frozenset([("builtin", value.func.id)]), frozenset())
         if self.is_var(value):
             return st
+        # var = helper(var): the helper's returned-value state for this argument state
+        if isinstance(value, ast.Call) and any(self.is_var(a) for a in value.args):
+            callee, idx = self._resolve(value)
+            if callee is not None and idx is not None:
+                self.ga.analyze(callee, callee.params[idx], st, self.chain)
+                rs = self.ga._ret_state.get((callee.qual, callee.params[idx], st), "unset")
+                if rs != "unset" and rs is not None:
+                    return rs
         return TOP
 
 
